@@ -730,14 +730,24 @@ pub enum Prelude {
 /// (or 8 via Capacity), mostly inserts, so that bucket chains grow far beyond 256 entries
 /// one bucket, thousands of keys: a single chain of more than 4096 links
 pub fn make_very_dense(cfg: &mut HistCfg) {
+    make_very_dense_n(cfg, 8400);
+}
+
+/// `n` distinct entries are inserted one after the other into a ONE-bucket table (a random
+/// history would leave much of a large pool untouched), then a few hundred random calls follow;
+/// the filler keys fill their 16-byte key slot exactly, so a value that moves relocates them
+pub fn make_very_dense_n(cfg: &mut HistCfg, n: u32) {
     make_dense(cfg, true);
     cfg.max_buckets = 1;
-    cfg.n_keys = 4200..=9000;
-    cfg.ops.n_ops = 5000..=11000;
-    cfg.ops.w.put = 85;
-    cfg.ops.w.del = 5;
-    cfg.ops.w.get = 8;
+    cfg.big_table = Some(1);
+    cfg.n_keys = 3..=40;
+    cfg.prelude = Prelude::ManyEntries(n);
+    cfg.ops.n_ops = 100..=600;
+    cfg.ops.w.put = 50;
+    cfg.ops.w.del = 10;
+    cfg.ops.w.get = 25;
     cfg.ops.w.reopen = 0;
+    cfg.ops.val = ValProfile::Mixed;
     cfg.obs.decode_every_op = false;
 }
 
@@ -854,7 +864,7 @@ fn prelude_ops(p: Prelude, kt: Kt, keys: &mut Vec<Key>) -> Vec<Op> {
         }
         Prelude::ManyEntries(n) => {
             for i in 0..n {
-                                let k = filler(keys, i, 9);
+                                let k = filler(keys, i, 10);
                 ops.push(Op::Put { k, v: Val::P { len: (i % 40) as u32, seed: i } });
             }
         }
@@ -923,9 +933,15 @@ pub fn history_strategy(cfg: HistCfg) -> BoxedStrategy<History> {
                     keys.extend(special_key_set(kt));
                     keys = dedup_keys(keys);
                 }
-                let nk = keys.len();
-                let obs = cfg3.obs.clone();
                 let prelude = cfg3.prelude;
+                // the random calls address the prelude's filler entries too (they follow the pool
+                // keys): old, deep, tightly packed records are where relocation bites
+                let nk = {
+                    let mut tmp = keys.clone();
+                    let _ = prelude_ops(prelude, kt, &mut tmp);
+                    tmp.len()
+                };
+                let obs = cfg3.obs.clone();
                 let ops_st: BoxedStrategy<Vec<Op>> = if cfg3.phases {
                     // insert-heavy, delete-heavy, mixed
                     let mut a = cfg3.ops.clone();
